@@ -22,6 +22,7 @@ func init() {
 	register(&Rule{ID: "C20.R2", Prop: "C20", Floor: 3, Doc: "determinism: derivation reads no time, randomness, environment or mutable global", Run: c20r2})
 	register(&Rule{ID: "C20.R3", Prop: "C20", Floor: 1, Doc: "whitespace: the phrase is tokenised only by strings.Fields", Run: c20r3})
 	register(&Rule{ID: "C20.R4", Prop: "C20", Floor: 3, Doc: "the three rejections (count, membership of every word, checksum) guard every success return", Run: c20r4})
+	register(&Rule{ID: "C20.R6", Prop: "C20", Floor: 1, Doc: "the checksum is the leading C bits of the first SHA-256 byte (the expression is evaluated for all 256 byte values)", Run: c20r6})
 	register(&Rule{ID: "C20.R5", Prop: "C20", Floor: 2, Doc: "bit-packing constants of encoder and decoder are consistent", Run: c20r5})
 }
 
@@ -529,4 +530,219 @@ func c20r5(c *Ctx) {
 	decOK := C > 0 && E > 0 &&
 		has(dec["shl"], W) && has(dec["shr"], 64-W) && has(dec["and"], (1<<C)-1) && has(dec["shl"], E) && has(dec["shr"], 64-E) && has(dec["shr"], C) && len(dec["and"]) == 1
 	ob2.Check(decOK, nil, "the decoder must use shifts {<<%d, >>%d, <<%d, >>%d, >>%d} and mask %#x for the same (W, E, C); found and=%v shl=%v shr=%v", W, 64-W, E, 64-E, C, (1<<C)-1, dec["and"], dec["shl"], dec["shr"])
+}
+
+// c20r6: the checksum of a phrase is the first four bits of the SHA-256 of the entropy (BIP-39). Encoder and decoder
+// share the checksum function, so a wrong extraction keeps them consistent with each other — and with every test that
+// round-trips — while rejecting every phrase written by a correct implementation. The arithmetic applied to the first
+// hash byte is read as a function of that byte and evaluated for all 256 values by the checker's own folding of the
+// expression tree (constants, &, |, ^, <<, >>, /, %, +, -, integer conversions); it must equal b >> (8-C).
+func c20r6(c *Ctx) {
+	r := getSeedRoles(c)
+	var C int64
+	for _, m := range shiftMaskConsts(r.dec)["and"] {
+		if m > 0 && (m&(m+1)) == 0 {
+			C = int64(bits.OnesCount64(uint64(m)))
+		}
+	}
+	n := 0
+	for _, f := range c.P.PkgFuncs("wallet") {
+		if f.Obj == nil {
+			continue
+		}
+		for _, call := range f.Calls(false) {
+			if call.Fn == nil || call.Fn.Pkg() == nil || call.Fn.Pkg().Path() != "crypto/sha256" || call.Fn.Name() != "Sum256" {
+				continue
+			}
+			n++
+			c.VisitGraph(f)
+			ob := c.Ob(f, "checksum-is-leading-bits", call.Pos())
+			// the digest: a local variable, or the call itself when it is subscripted in place
+			var h types.Object
+			var as *ast.AssignStmt
+			if a, ok := f.Graph().NodeContaining(call.Pos()).AST.(*ast.AssignStmt); ok && len(a.Lhs) == 1 && len(a.Rhs) == 1 && ast.Unparen(a.Rhs[0]) == ast.Expr(call.Expr) {
+				as, h = a, f.ObjOf(a.Lhs[0])
+			}
+			isDigest := func(x ast.Node) bool {
+				if h != nil {
+					id, ok := x.(*ast.Ident)
+					return ok && f.ObjOf(id) == h
+				}
+				return x == ast.Node(call.Expr)
+			}
+			// every use of the digest must be its first byte inside one arithmetic expression
+			var tops []ast.Expr
+			okShape := true
+			parents := map[ast.Node]ast.Node{}
+			var stack []ast.Node
+			ast.Inspect(f.Body, func(x ast.Node) bool {
+				if x == nil {
+					stack = stack[:len(stack)-1]
+					return true
+				}
+				if len(stack) > 0 {
+					parents[x] = stack[len(stack)-1]
+				}
+				stack = append(stack, x)
+				return true
+			})
+			ast.Inspect(f.Body, func(x ast.Node) bool {
+				if x == nil || !isDigest(x) || (as != nil && parents[x] == ast.Node(as)) {
+					return true
+				}
+				ix, ok := parents[x].(*ast.IndexExpr)
+				if !ok || ast.Node(ix.X) != x {
+					okShape = false
+					return true
+				}
+				if v, isC := f.ConstInt(ix.Index); !isC || v != 0 {
+					okShape = false
+					return true
+				}
+				var top ast.Expr = ix
+				for {
+					p, _ := parents[top].(ast.Expr)
+					if p == nil {
+						break
+					}
+					switch p := p.(type) {
+					case *ast.ParenExpr:
+					case *ast.BinaryExpr:
+						other := p.X
+						if other == top {
+							other = p.Y
+						}
+						if _, isC := f.ConstInt(other); !isC {
+							p = nil
+						}
+						if p == nil {
+							goto done
+						}
+					case *ast.CallExpr:
+						if tv, ok := f.Info().Types[p.Fun]; !ok || !tv.IsType() || len(p.Args) != 1 {
+							goto done
+						}
+					default:
+						goto done
+					}
+					top = p
+				}
+			done:
+				tops = append(tops, top)
+				return true
+			})
+			if !okShape || len(tops) != 1 || C <= 0 || C >= 8 {
+				ob.Unknown("the digest is not used as `arithmetic(digest[0])` exactly once (uses: %d, checksum bits: %d)", len(tops), C)
+				continue
+			}
+			bad := -1
+			var got uint64
+			for b := 0; b < 256 && bad < 0; b++ {
+				v, ok := evalByteExpr(f, tops[0], isDigest, uint64(b))
+				if !ok {
+					ob.Unknown("the checksum expression at %s uses an operator the evaluator does not know", c.P.Pos(tops[0].Pos()))
+					bad = -2
+					break
+				}
+				if v != uint64(b)>>(8-uint(C)) {
+					bad, got = b, v
+				}
+			}
+			if bad == -2 {
+				continue
+			}
+			ob.Check(bad < 0, nil, "the checksum expression at %s is not the leading %d bits of the digest's first byte: for a first byte of %#02x it yields %#x instead of %#x — phrases written by any other BIP-39 implementation are rejected and the ones produced here are invalid elsewhere", c.P.Pos(tops[0].Pos()), C, bad, got, uint64(bad)>>(8-uint(C)))
+		}
+	}
+	if n == 0 {
+		ir.Fail("no SHA-256 checksum function found in package wallet")
+	}
+}
+
+// evalByteExpr folds e, in which digest[0] stands for the value b, with Go's unsigned wrap-around per operand type.
+func evalByteExpr(f *ir.Func, e ast.Expr, digest func(ast.Node) bool, b uint64) (uint64, bool) {
+	width := func(x ast.Expr) uint {
+		if bt, ok := f.TypeOf(x).Underlying().(*types.Basic); ok {
+			switch bt.Kind() {
+			case types.Uint8, types.Int8:
+				return 8
+			case types.Uint16, types.Int16:
+				return 16
+			case types.Uint32, types.Int32:
+				return 32
+			}
+		}
+		return 64
+	}
+	trunc := func(v uint64, w uint) uint64 {
+		if w >= 64 {
+			return v
+		}
+		return v & (1<<w - 1)
+	}
+	if v, ok := f.ConstInt(e); ok {
+		return uint64(v), true
+	}
+	switch e := e.(type) {
+	case *ast.ParenExpr:
+		return evalByteExpr(f, e.X, digest, b)
+	case *ast.IndexExpr:
+		if digest(e.X) {
+			return b, true
+		}
+	case *ast.CallExpr:
+		if tv, ok := f.Info().Types[e.Fun]; ok && tv.IsType() && len(e.Args) == 1 {
+			v, ok := evalByteExpr(f, e.Args[0], digest, b)
+			return trunc(v, width(e)), ok
+		}
+	case *ast.BinaryExpr:
+		x, ok1 := evalByteExpr(f, e.X, digest, b)
+		y, ok2 := evalByteExpr(f, e.Y, digest, b)
+		if !ok1 || !ok2 {
+			return 0, false
+		}
+		var v uint64
+		switch e.Op {
+		case token.AND:
+			v = x & y
+		case token.OR:
+			v = x | y
+		case token.XOR:
+			v = x ^ y
+		case token.AND_NOT:
+			v = x &^ y
+		case token.SHL:
+			if y >= 64 {
+				v = 0
+			} else {
+				v = x << y
+			}
+		case token.SHR:
+			if y >= 64 {
+				v = 0
+			} else {
+				v = x >> y
+			}
+		case token.ADD:
+			v = x + y
+		case token.SUB:
+			v = x - y
+		case token.MUL:
+			v = x * y
+		case token.QUO:
+			if y == 0 {
+				return 0, false
+			}
+			v = x / y
+		case token.REM:
+			if y == 0 {
+				return 0, false
+			}
+			v = x % y
+		default:
+			return 0, false
+		}
+		return trunc(v, width(e)), true
+	}
+	return 0, false
 }
